@@ -163,8 +163,8 @@ func min(a, b int) int {
 func OddProgram(idx int, r *fw.Rand) (string, string) {
 	natives := []string{"int", "int32", "int64", "float", "float32", "float64", "string", "bool", "date", "datetime", "decimal", "bytes", "any", "Other", "App2.Other", "Ns :: App2.Other", "Tab.id"}
 	specs := append([]string{""}, sizeSpecs...)
-	pos := idx % 14
-	idx /= 14
+	pos := idx % 20
+	idx /= 20
 	ty := natives[idx%len(natives)] + specs[(idx/len(natives))%len(specs)]
 	wrap := []string{"%s", "set of %s", "sequence of %s", "%s?", "set of %s?", "sequence of %s [~x]"}[(idx/(len(natives)*len(specs)))%6]
 	te := fmt.Sprintf(wrap, ty)
@@ -212,6 +212,25 @@ func OddProgram(idx int, r *fw.Rand) (string, string) {
 	case 12:
 		name = "nested-doc-in-rest"
 		fmt.Fprintf(&b, "    /q:\n        POST (b <: %s [~body]):\n            if x:\n                | nested doc\n                one of:\n                    a:\n                        | deeper\n                        return ok <: %s\n", te, te)
+	case 14:
+		// constructs judged only by the linter / post-processing (after the tree walk)
+		name = "rest-call-to-simple-endpoint"
+		fmt.Fprintf(&b, "    Plain (p <: %s):\n        ...\n    Caller:\n        App <- GET Plain\n        App <- POST /nowhere/{id}\n        App2 <- GET Missing\n        . <- PATCH Plain\n", te)
+	case 15:
+		name = "nested-untyped-transform"
+		fmt.Fprintf(&b, "    !view V2(n <: %s) -> int:\n        n -> (:\n            out = n -> (:\n                x = 1\n            )\n            let y = n -> (z:\n                w = z\n            )\n        )\n", strings.TrimSuffix(te, "?"))
+	case 16:
+		name = "mixin-of-dotted-local-ref"
+		fmt.Fprintf(&b, "    -|> Model\n    -|> Model2\nModel [~abstract]:\n    !type Address:\n        id <: %s\n    !type Person:\n        home <: Address.id\n        alt <: Tab.id\nModel2 [~abstract]:\n    -|> Model\n    -|> App\n    !table Person:\n        home <: Address.id [~pk]\n", te)
+	case 17:
+		name = "collector-forms"
+		fmt.Fprintf(&b, "    Ep2 (p <: %s):\n        App2 <- Missing\n        one of:\n            a:\n                App <- Ep2\n    /r:\n        GET:\n            return ok\n    .. * <- *:\n        Ep2 [~x]\n        Nope [~y]\n        App <- Ep2 [~z]\n        GET /r [~w]\n        App2 <- App -> Evt [~v]\n", te)
+	case 18:
+		name = "pubsub-forms"
+		fmt.Fprintf(&b, "    <-> Evt (p <: %s) [~e]: ...\n    App2 -> Ghost:\n        . <- Evt\n    Nobody :: Here -> Evt2: ...\nApp2:\n    App -> Evt:\n        App <- Evt\n    App -> Evt: ...\n", te)
+	case 19:
+		name = "facade-and-odd-members"
+		fmt.Fprintf(&b, "    !wrap Model:\n        !table Tab\n        !type Other:\n            x [~a]\n    ...\n    Q \"long\" (App2.Other, r <: %s) [~t]: ...\n    !type Deep.Nested.Name:\n        f <: %s\n    !type Deep:\n        Nested <: Deep.Nested\n", te, te)
 	default:
 		name = "annotations-everywhere"
 		fmt.Fprintf(&b, "    @a1 = \"v\"\n    !type T:\n        @a2 = [\"x\", [\"y\"]]\n        f <: %s:\n            @a3 =:\n                | multi\n    @a4 = \"w\"\n    !alias A2:\n        @a5 = \"z\"\n        %s\n    @a6 = \"after alias\"\n    !enum E:\n        @a7 = \"e\"\n        X: 99999999999999999999\n    @a8 = \"after enum\"\n    !union U2:\n        @a9 = \"u\"\n        %s\n    @a10 = \"after union\"\n", te, te, strings.TrimSuffix(te, "?"))
